@@ -134,6 +134,10 @@ def run(chk, repo: Repo):
                        "with the adoption of the point it was evaluated at (the ratio's denominator belongs to the current state), and is filled by the evaluation it memoises", floor=14)
     from ..cachepoint import cache_point_rule
     cache_point_rule(chk, repo, "C02-R7", repo.classes_in("cuqi/experimental/mcmc/"))
+    _r7_legacy_initial_cache(chk, repo)
+    from ..cachepoint import point_writers_rule
+    from .common import concrete_experimental_samplers as _ces
+    point_writers_rule(chk, repo, "C02-R7", _ces(repo))
 
     kernels = [Kernel(repo, *k) for k in KERNELS]
     known_fns = {id(k.src_fn) for k in kernels}
@@ -515,6 +519,42 @@ def _r2_cwmh(chk, repo, k: Kernel, acc, asg):
     chk.add("C02-R2", k.label, not problems, site(repo, loop),
             f"per component {j}: {trial}[{j}] proposed, accepted into {run_pt}[{j}] with {cur_l} updated together, trial re-synchronised",
             "; ".join(problems), loop)
+
+
+def _r7_legacy_initial_cache(chk, repo):
+    """Legacy interface: the cached evaluation the chain starts with (`<eval>[0] = f(self.x0)`) is computed by the function the kernel compares proposals
+    with, and the two chain drivers of a sampler (_sample / _sample_adapt) agree on it.  `logpdf` instead of `logd` drops the constant a reduced joint
+    carries: until the first acceptance every ratio is off by that constant."""
+    n = 0
+    for ci in repo.classes_in("cuqi/sampler/"):
+        su = ci.lookup("single_update")
+        if su is None:
+            continue
+        kernel_calls = {call_name(c) for c in ast.walk(su[1]) if isinstance(c, ast.Call) and (call_name(c) or "").startswith(("self.target.", "self._loglikelihood", "self.likelihood."))
+                        and (call_name(c) or "").rsplit(".", 1)[-1] in ("logd", "logpdf", "_loglikelihood")}
+        per = {}
+        for mname in ("_sample", "_sample_adapt"):
+            fn = ci.methods.get(mname)
+            if fn is None:
+                continue
+            for st in ast.walk(fn):
+                if isinstance(st, ast.Assign):
+                    tg = st.targets[0].elts if isinstance(st.targets[0], ast.Tuple) else [st.targets[0]]
+                    vs = st.value.elts if isinstance(st.value, ast.Tuple) and len(st.value.elts) == len(tg) else [st.value] * len(tg)
+                    for t, v in zip(tg, vs):
+                        if isinstance(t, ast.Subscript) and isinstance(t.slice, ast.Constant) and t.slice.value == 0 and isinstance(v, ast.Call) \
+                                and v.args and path_of(v.args[0]) == "self.x0" and (call_name(v) or "").rsplit(".", 1)[-1] in ("logd", "logpdf", "_loglikelihood"):
+                            per.setdefault(mname, set()).add(call_name(v))
+        if not per:
+            continue
+        n += 1
+        allc = set().union(*per.values())
+        ok = len(allc) == 1 and (not kernel_calls or allc <= kernel_calls)
+        chk.add("C02-R7", f"{ci.qual}/initial-cache", ok, f"{ci.module.rel}:{ci.node.lineno}", f"initial cached evaluation by {sorted(kernel_calls) or sorted(allc)} in every chain driver",
+                f"the chain drivers fill the initial cached evaluation with {({k: sorted(v) for k, v in per.items()})} while single_update compares proposals through "
+                f"{sorted(kernel_calls)}: the first ratios mix two different functions (logpdf lacks the constant of a reduced joint)")
+    if n < 3:
+        raise AnchorError(f"legacy initial cached evaluations found for {n} samplers, at least 3 expected")
 
 
 # ------------------------------------------------------------------------------------------------ R4
